@@ -47,9 +47,9 @@ func init() {
 		return clusterCheckSched(prop, tier, p, []string{"leader_present", "two_leaders_different_terms", "op_acked"}, untimedAssumptions, nil, sp)
 	}
 	checks["C03"] = func(prop, tier string) int {
-		p := []plan{{"cli3-d2", 35}, {"rep3-d3", 135}, {"net3-d2", 30}, {"pending3-d2", 40}, {"regainedelect5-d2", 60}, {"stoprestart3-d2", 30}, {"slowapply3-d2", 30}}
+		p := []plan{{"cli3-d2", 35}, {"rep3-d3", 135}, {"net3-d2", 30}, {"pending3-d2", 40}, {"regainedelect5-d2", 60}, {"stoprestart3-d2", 30}, {"slowapply3-d2", 30}, {"nvwrite5-d3", 30}}
 		if tier == "thorough" {
-			p = []plan{{"cli3-d3", 200}, {"cli3-d4", 600}, {"rep3-d4", 500}, {"net3-d3", 120}, {"all2", 150}, {"rep4-d3", 150}, {"regainedelect5-d3", 400}, {"stoprestart3-d3", 200}, {"slowapply3-d3", 400}}
+			p = []plan{{"cli3-d3", 200}, {"cli3-d4", 600}, {"rep3-d4", 500}, {"net3-d3", 120}, {"all2", 150}, {"rep4-d3", 150}, {"regainedelect5-d3", 400}, {"stoprestart3-d3", 200}, {"slowapply3-d3", 400}, {"nvwrite5-d5", 200}}
 		}
 		sp := []schedPlan{{"sched-rep3", 2, 60}}
 		if tier == "thorough" {
